@@ -34,7 +34,7 @@ Inductive call := KConnect | KCursor | KExecute (q : stmt) | KExecMany (q : stmt
 Record event : Type := Ev { e_call : call; e_con : nat; e_ok : bool; e_lock : bool; e_txn : bool; e_mine : bool; e_pend : nat }.
 Definition ev5 (k : call) (id : nat) (ok lk txn : bool) : event := Ev k id ok lk txn false 0.
 
-Inductive exn := EDb | EDrv | EAttr | EUnexp | ECommit | ERollback | EBody | EAssert | EConnClosed | ERuntime.
+Inductive exn := EDb | EDrv | EAttr | ENotImpl | EUnexp | ECommit | ERollback | EBody | EAssert | EConnClosed | ERuntime.
 Inductive res := Ok | Err (e : exn) | Blocked.
 
 Inductive badness := BadReleaseUnlocked | BadStolenLock | BadSelfDeadlock | BadDoubleCheckout | BadDoubleRelease | BadDeadConn | BadLeakOnConnect.
@@ -334,7 +334,8 @@ Definition get_connection : M :=
 (* ---- session bodies ---- *)
 Inductive op := OSelect | OForUpd | ONew | OFlush | ORawWrite | OCommit | ORollback | ODbCommit | ODbRollback | ORaise | OGetConn
   | OLink | OUnlink                       (* a many-to-many link added / removed between loaded objects: no SQL before the flush *)
-  | OGetFU (cached locked : bool).        (* get_for_update(...) by any key, the object being / not being in the session cache / in cache.for_update *)
+  | OGetFU (cached locked : bool)         (* get_for_update(...) by any key, the object being / not being in the session cache / in cache.for_update *)
+  | OGetFURev (locked : bool).            (* get_for_update(<one-to-one attribute that has no column> = obj): found through the reverse attribute *)
 
 Definition run_op (o : op) : M :=
   match o with
@@ -357,6 +358,9 @@ Definition run_op (o : op) : M :=
       if cached && locked then get_cache
       else get_cache ;; upd (set_k_imm true) ;; exec false SSelect ;;
            (fun s => assert_ (k_intxn s) s) ;; upd (fun s => set_k_forupd (S (k_forupd s)) s)
+  (* the object is found in the cache through reverse.__get__; if it is not locked yet _find_in_db_ is asked, and
+     _construct_sql_ raises NotImplementedError for an attribute without columns - before anything is touched *)
+  | OGetFURev locked => get_cache ;; (if locked then ret else raise ENotImpl)
   end.
 
 (* the body of a db_session: a list of (operation, does the body catch an exception raised by it) *)
@@ -419,7 +423,7 @@ Definition event_eqb (a b : event) : bool :=
 Fixpoint list_eqb {A} (f : A -> A -> bool) (l1 l2 : list A) : bool :=
   match l1, l2 with [] , [] => true | x :: l1', y :: l2' => f x y && list_eqb f l1' l2' | _, _ => false end.
 Definition exn_eqb (a b : exn) : bool :=
-  match a, b with EDb, EDb | EDrv, EDrv | EAttr, EAttr | EUnexp, EUnexp | ECommit, ECommit | ERollback, ERollback | EBody, EBody | EAssert, EAssert
+  match a, b with EDb, EDb | EDrv, EDrv | EAttr, EAttr | ENotImpl, ENotImpl | EUnexp, EUnexp | ECommit, ECommit | ERollback, ERollback | EBody, EBody | EAssert, EAssert
                 | EConnClosed, EConnClosed | ERuntime, ERuntime => true | _, _ => false end.
 Definition res_eqb (a b : res) : bool :=
   match a, b with Ok, Ok | Blocked, Blocked => true | Err x, Err y => exn_eqb x y | _, _ => false end.
